@@ -295,12 +295,16 @@ def build(spec, env):
         z = gen.val(r, 3); z2 = gen.val(r, 2)
         if sub == 'rt':
             conv = r.choice('dxXo'); base = {'d': 10, 'x': 16, 'X': -16, 'o': 8}[conv]
-            s = r.choice(['', ' ', '\n\t ']) + models.digits(z, base) + r.choice(['', ' ', 'z'])
+            head = r.choice(['', ' ', '\n\t ']) + models.digits(z, base)
+            # what follows the number must stay in the input: blanks, letters, and the characters that continue OTHER number syntaxes
+            # (a radix point, an exponent, a fraction bar, a second sign)
+            tail = r.choice(['', ' ', 'z', '.5', '.', ',', '/3', '-1', '+2', '@1', ':', 'g', 'p'] + (['e5', 'e', 'a'] if conv in 'do' else []))
+            s = head + tail
             fn = r.choice(['sscanf', 'vsscanf'])
             cmds = ['sf %s %s %s Z1 &i' % (fn, hexs(s), hexs('%Z' + conv + '%n'))]
-            def check(rep, z=z, s=s, conv=conv, fn=fn):
-                a, _ = split_reply(rep[0]); used = len(s.rstrip('z ')) if True else 0
-                used = len(s) - (1 if s and s[-1] in ' z' else 0)
+            def check(rep, z=z, s=s, conv=conv, fn=fn, head=head):
+                a, _ = split_reply(rep[0])
+                used = len(head)
                 if int(a[0]) != 1 or I(a[1]) != z or int(a[2]) != used: return [('gmp_%s:%%Z%s-readback-wrong' % (fn, conv), 'input=%r got ret=%s value=%s n=%s want n=%d' % (s, a[0], a[1][:40], a[2], used))]
             return Case(cmds, check, 1, ('scan', 'rt', conv, fn, z < 0))
         if sub == 'base':
